@@ -126,11 +126,50 @@ impl Run {
         Self::start_with(xml, watchdog, &[])
     }
 
+    /// as start, but the parsed model is written to the binary format and read back before it is started
+    pub fn start_via_binary(xml: &str, watchdog: Duration) -> Result<Run, StartError> {
+        Self::start_full(xml, watchdog, &[], true)
+    }
+
     pub fn start_with(xml: &str, watchdog: Duration, extra: &[(&str, Box<dyn rufsm::actions::Action>)]) -> Result<Run, StartError> {
+        Self::start_full(xml, watchdog, extra, false)
+    }
+
+    pub fn start_full(
+        xml: &str,
+        watchdog: Duration,
+        extra: &[(&str, Box<dyn rufsm::actions::Action>)],
+        via_binary: bool,
+    ) -> Result<Run, StartError> {
         let g = globals();
         let log = RunLog::new();
         *g.current.lock().unwrap() = Some(log.clone());
         let mut fsm = parse(xml)?;
+        if via_binary {
+            use rufsm::serializer::default_protocol_reader::DefaultProtocolReader;
+            use rufsm::serializer::default_protocol_writer::DefaultProtocolWriter;
+            use rufsm::serializer::fsm_reader::FsmReader;
+            use rufsm::serializer::fsm_writer::FsmWriter;
+            let r = catch_unwind(AssertUnwindSafe(|| {
+                let mut w: FsmWriter<Vec<u8>> = FsmWriter::new(Box::new(DefaultProtocolWriter::new(Vec::new())));
+                w.write(&fsm);
+                w.close();
+                let buf = w.get_writer().clone();
+                let pr = DefaultProtocolReader::new(&buf[..]);
+                let mut fr = FsmReader::new(Box::new(pr));
+                fr.read()
+            }));
+            fsm = match r {
+                Ok(Ok(f)) => f,
+                Ok(Err(e)) => return Err(StartError::ParseErr(format!("binary round trip: {}", e))),
+                Err(_) => {
+                    return Err(StartError::ParsePanic(format!(
+                        "binary round trip panicked: {:?}",
+                        take_panics().last()
+                    )))
+                }
+            };
+        }
         fsm.tracer = Box::new(Recorder::new(log.clone()));
         let (state_names, trans_pos, hist_ids) = index_fsm(&fsm);
         let mut actions = ActionWrapper::new();
